@@ -8,6 +8,8 @@ HARNESSES = {
     # name -> cargo package, test path of the driver inside the crate's lib test binary
     "merkle": {"crate": "astria-merkle", "test": "verif::driver"},
     "composer": {"crate": "astria-composer", "test": "executor::bundle_factory::verif::driver"},
+    "core": {"crate": "astria-core", "test": "oracles::price_feed::utils::verif::driver"},
+    "quorum": {"crate": "astria-conductor", "test": "celestia::verify::verif::driver"},
 }
 
 PROPS = {
@@ -34,6 +36,49 @@ PROPS = {
                         "soundness is in extractor form: a verified mutation yields an explicit SHA-256 collision; no collision-freedom axiom"],
         "explanation": "theorems: decode/verify total for every raw proof and hash function, extractor soundness, termination of the index walk; "
                        "correspondence: model = code on every generated line",
+    },
+    "C09": {
+        "level": "proof",
+        "lean_modules": ["Astria.Quorum.Model", "Astria.Quorum.Theorems", "Astria.Properties"],
+        "theorems": ["Astria.C09_quorum_exact", "Astria.C09_accept_sound", "Astria.C09_metadata_bound",
+                     "Astria.C09_original_counterexamples"],
+        "harnesses": ["quorum"],
+        "monitors": ["quorum_sound", "metadata_bound"],
+        "scope_regex": r"^quorum (check|meta) ",
+        "nontrivial_regex": r"^quorum (check .* => (ok|err:(no-quorum|duplicate-vote|bad-signature|exceeds-total))|meta )",
+        "rule": "in-crate harness (child module of celestia::verify) calls the real ensure_commit_has_quorum with real ed25519 keys and "
+                "tendermint types: every k-of-n for n<=9 equal validators, one-big-validator sets around the 2/3 boundary for totals in every "
+                "residue mod 3 (incl. 2^40+r), 700 (thorough 20000) generated commits over 1..8 validators with powers from "
+                "{1,2,3,5,10,2^31,2^61,2^62,2^62+7}, honest subsets / forged, foreign-key, wrong-block, missing signatures / unknown validators / "
+                "duplicated CommitSigs / repeated keys in the set / height mismatch; and BlobVerifier::verify_metadata against a cached commit "
+                "for all four (chain id equal?, hash equal?) combinations. non-trivial = reached the tally (ok, no-quorum, duplicate, bad "
+                "signature) or a metadata decision; distinct = distinct trace lines",
+        "trusted_base": [KERNEL, "hand-written model Astria/Quorum/Model.lean tied to block_verifier.rs / verify.rs by the correspondence run",
+                         "harness /verif/harness/conductor/celestia.rs + Lean driver; ed25519 (astria-core-crypto) — sigOk is a parameter of every theorem",
+                         "tendermint / tendermint-rpc types, moka cache"],
+        "assumptions": ["the fetch of commit and validator set from the sequencer RPC (VerificationMeta::fetch) is exercised only through the cache; "
+                        "the RPC transport and retry loop are not modelled",
+                        "rollup-blob Merkle binding (reconstruct.rs) is covered by C07's check, not this one"],
+        "explanation": "theorem: acceptance implies distinct validly-signing validators with > 2/3 of total power, for every signature oracle; "
+                       "correspondence on every generated commit; monitors recompute the spec from the op alone",
+    },
+    "C15": {
+        "level": "proof",
+        "lean_modules": ["Astria.Quorum.Model", "Astria.Quorum.Theorems", "Astria.Quorum.Median", "Astria.Properties"],
+        "theorems": ["Astria.C15_threshold", "Astria.C15_accept_sound", "Astria.C15_empty_ok", "Astria.C15_median_in_range",
+                     "Astria.C15_original_counterexample"],
+        "harnesses": ["core"],
+        "monitors": ["median_in_range", "ve_accept_sound", "ve_empty_ok"],
+        "scope_regex": r"^(core median|quorum proposal) ",
+        "nontrivial_regex": r"^(core median \S*,|quorum proposal .* => (ok|err:(insufficient|bad-signature|voted-twice|flag-mismatch)))",
+        "rule": "in-crate harness on astria-core's private median: all lists of length <=2 (thorough <=4) over -4..4, 4000 (thorough 100000) "
+                "generated price vectors of length 1..9 incl. negative, odd, i128::MIN/MAX-adjacent values. non-trivial = a list with at least two "
+                "prices; distinct = distinct trace lines",
+        "trusted_base": [KERNEL, "hand-written model Astria/Quorum/Model.lean (median, validate_proposal) tied to the code by the correspondence run",
+                         "harness /verif/harness/core/mod.rs + Lean driver", "ed25519 — sigOk is a parameter"],
+        "assumptions": ["i128 overflow cannot occur in median (halves are added); the model uses unbounded Int",
+                        "aggregation across validators (aggregate_oracle_votes) groups prices per pair id before the median; modelled as the list handed to median"],
+        "explanation": "theorems: threshold arithmetic, acceptance soundness of validate_proposal for every signature oracle, median within range for every list",
     },
     "C16": {
         "level": "proof",
